@@ -84,9 +84,9 @@ def verify_function(world, qual, timeout_ms=10000):
     t0 = time.time()
     res = FunctionResult(qual)
     contract = REG.contracts[qual]
-    finfo = world.repo.func(qual)
+    finfo = world.repo.func(qual.split('#')[0])      # 'f#name' = a second contract of f (callers use the one registered under 'f')
     ctx = pick_ctx(world, finfo, contract)
-    ex = Exec(world, finfo, contract, ctx_cls=ctx, solver_timeout_ms=timeout_ms)
+    ex = Exec(world, finfo, contract, ctx_cls=ctx, solver_timeout_ms=timeout_ms, prefix=qual)
     calls.USED_BUILTINS.clear()
     calls.USED_TRUSTED.clear()
     try:
